@@ -34,7 +34,7 @@ func init() {
 		Explanation: "Structural necessary conditions of total decoding, decided for every decoder path of the library: (R-ALLOC) every allocation sized by input is behind a limit check whose failing branch leaves, and cannot be negative; " +
 			"(R-INDEX) every index that input can choose - directly, via a struct field, or via an unvalidated decoded value used later - is bounds-checked, masked to fit, or validated; " +
 			"(R-TERM) every input-dependent loop is bounded or consumes input and leaves on error; (R-STICKY) errors reach the caller.",
-		NotCovered:  "panics other than out-of-range index / make (nil dereference, division by zero) in later queries on decoded-but-degenerate geometry; memory use below the documented limits; behaviour of io.Reader implementations.",
+		NotCovered:  "panics other than out-of-range index / make in later queries on decoded-but-degenerate geometry, except the three that are decided: zero-vertex loops (R-DECSHAPE zerovertices), non-finite coordinates (R-FINITE), uninitialised loops/polygons (R-INIT); memory use below the documented limits; behaviour of io.Reader implementations beyond short reads.",
 		Assumptions: []string{"64-bit int (GOARCH with 64-bit int) for the narrower-unsigned-conversion argument", "the sanitizer table (CellID.IsValid) states the precondition of face-table lookups"},
 	}
 }
@@ -96,7 +96,7 @@ func init() {
 
 func init() {
 	Properties["C16"] = PropertySpec{
-		Rules: []string{"R-ORDERINDEP", "R-CONST", "R-SELFCMP"},
+		Rules: []string{"R-ORDERINDEP", "R-CONST", "R-SELFCMP", "R-GLOBAL"},
 		Explanation: "Narrow claim. Of the intersection-point property only the order-independence machinery and the error constants are decided: the hemisphere correction is a function of all " +
 			"four vertices, distance ties fall back to a comparison of the points, the two edges are canonicalised by one consistently renamed pair of statements, the exact method runs only " +
 			"when the stable one declined, and none of the error constants of the stable method is weakened.",
@@ -123,7 +123,7 @@ func init() {
 
 func init() {
 	Properties["C12"] = PropertySpec{
-		Rules: []string{"R-CONST", "R-LAZY", "R-MIRROR", "R-TWIN", "R-SELFCMP", "R-UNITS", "R-FACEBOUNDS", "R-PADDING", "R-GUARD", "R-UPDATER"},
+		Rules: []string{"R-CONST", "R-LAZY", "R-MIRROR", "R-TWIN", "R-SELFCMP", "R-UNITS", "R-FACEBOUNDS", "R-PADDING", "R-GUARD", "R-UPDATER", "R-TABLE"},
 		Explanation: "Narrow claim. Of the cell geometry only what is visible in code shape is decided: none of the documented error allowances in cell.go, paddedcell.go, stuv.go and the " +
 			"interior-distance test of edge_distances.go is smaller than its derived value; the lazily computed middle of a padded cell is read only through its accessor; the point-to-cell " +
 			"conversion and Cell.ContainsPoint share one projection kernel; Cell.latitude/longitude and the CellID begin/end functions are mirror images.",
@@ -238,17 +238,17 @@ func init() {
 		Properties[prop] = p
 	}
 	addRules("C01", "R-SAMEFACE")
-	addRules("C02", "R-CONSTREL", "R-SOSDERIVE")
+	addRules("C02", "R-CONSTREL", "R-SOSDERIVE", "R-GLOBAL")
 	addRules("C03", "R-GUARD", "R-VERTEXSYM", "R-CONSTREL", "R-SOS", "R-SOSDERIVE", "R-GLOBAL")
-	addRules("C04", "R-MIRROR", "R-CONSTREL", "R-RESET", "R-FLAGS", "R-PARTITION", "R-ALLLOOPS", "R-LOCK", "R-SYNCED")
-	addRules("C05", "R-PADDING", "R-PARITY", "R-FRESHRET", "R-RANGE", "R-PARTITION", "R-ACCUM")
-	addRules("C06", "R-GUARD", "R-NOALIAS", "R-CLIPENDS", "R-RESET", "R-ALLLOOPS", "R-CONSTREL")
-	addRules("C07", "R-ROLES", "R-PARITY", "R-PARTITION", "R-INIT", "R-GUARD")
+	addRules("C04", "R-CONST", "R-MIRROR", "R-CONSTREL", "R-RESET", "R-FLAGS", "R-PARTITION", "R-ALLLOOPS", "R-LOCK", "R-SYNCED")
+	addRules("C05", "R-MIRROR", "R-PADDING", "R-PARITY", "R-FRESHRET", "R-RANGE", "R-PARTITION", "R-ACCUM")
+	addRules("C06", "R-GLOBAL", "R-CYCLE", "R-CELLREL", "R-SPARSEID", "R-GUARD", "R-NOALIAS", "R-CLIPENDS", "R-RESET", "R-ALLLOOPS", "R-CONSTREL")
+	addRules("C07", "R-NAMEPAIR", "R-ROLES", "R-PARITY", "R-PARTITION", "R-INIT", "R-GUARD")
 	addRules("C08", "R-CONSTREL", "R-UNITS", "R-UPDATER")
-	addRules("C15", "R-DERIVED", "R-ALLLOOPS", "R-REINIT", "R-FINITE", "R-DECSHAPE", "R-INIT")
+	addRules("C15", "R-SIBSHAPE", "R-DERIVED", "R-ALLLOOPS", "R-REINIT", "R-FINITE", "R-DECSHAPE", "R-INIT")
 	addRules("C09", "R-GUARD", "R-DECSHAPE", "R-REINIT", "R-RAWFLOAT", "R-GLOBAL", "R-DERIVED", "R-ALLLOOPS", "R-FLAGS", "R-INITORDER", "R-PAIR", "R-WIRECOUNT", "R-FIELDPAIR")
-	addRules("C10", "R-PARTITION", "R-UNITS", "R-SAMEFACE", "R-ROLES", "R-PADDING", "R-CONSTREL", "R-ALLLOOPS", "R-ACCUM", "R-FACEBOUNDS", "R-INITORDER")
-	addRules("C13", "R-NOALIAS", "R-REINIT")
+	addRules("C10", "R-TABLE", "R-PARTITION", "R-UNITS", "R-SAMEFACE", "R-ROLES", "R-PADDING", "R-CONSTREL", "R-ALLLOOPS", "R-ACCUM", "R-FACEBOUNDS", "R-INITORDER")
+	addRules("C13", "R-NOALIAS", "R-REINIT", "R-SPARSEID")
 	addRules("C14", "R-IDLE", "R-NOALIAS", "R-OPTS", "R-RESET")
 	addRules("C18", "R-ROLES", "R-PARTITION", "R-ALLLOOPS", "R-STAGES", "R-UNITS")
 	addRules("C19", "R-ROLES", "R-ORDERLAWS", "R-EXPAND", "R-UNITS")
@@ -303,26 +303,26 @@ func init() {
 	}
 	// C04: the lazily built index must be complete before an indexed containment query reads it - the status protocol of
 	// R-LOCK applies, the re-entry obligation (incremental updates, known finding D3 under C13/C14) does not.
-	only("C04", map[string][]string{"R-LOCK": {"atomic-status", "balanced", "publish", "status-store"}, "R-CONSTREL": {"updateFaceEdges"}, "R-MIRROR": {"stToUV"}})
-	only("C06", map[string][]string{"R-ALLLOOPS": {"CrossingEdgeQuery"}, "R-CONSTREL": {"updateFaceEdges"}, "R-GUARD": {"boundaryApproxIntersects"}})
+	only("C04", map[string][]string{"R-LOCK": {"atomic-status", "balanced", "publish", "status-store"}, "R-CONSTREL": {"updateFaceEdges", "stableSign", "maxDeterminantError"}, "R-MIRROR": {"stToUV"}, "R-CONST": {"EdgeCrosser", "stableSign", "triageSign", "s2.maxDeterminantError", "detErrorMultiplier"}})
+	only("C06", map[string][]string{"R-ALLLOOPS": {"CrossingEdgeQuery"}, "R-CONSTREL": {"updateFaceEdges"}, "R-GUARD": {"boundaryApproxIntersects", "getCells"}, "R-CYCLE": {"CrossingEdgeQuery"}})
 	only("C14", map[string][]string{"R-RESET": {"applyUpdatesInternal", "ShapeIndex.Reset"}})
-	only("C15", map[string][]string{"R-ALLLOOPS": {"Polygon.decode"}, "R-INIT": {"ecode"}})
+	only("C15", map[string][]string{"R-ALLLOOPS": {"Polygon.decode"}, "R-INIT": {"ecode"}, "R-SIBSHAPE": {"edge-id-space"}})
 	only("C16", map[string][]string{"R-CONST": {"intersection", "projection", "robustNormal", "s2.dblError"}})
 	only("C17", map[string][]string{"R-CONST": {"interiorDist", "minUpdate", "ChordAngle).Max", "edge_distances"}, "R-UNITS": {"edge_distances", "UpdateM", "updateEdge", "s2.UpdateMaxDistance", "arc-length-through-chord"}, "R-CONSTREL": {"Polyline).Project"}})
 	only("C20", map[string][]string{"R-CONST": {"Snapper", "Tessellat", "tessellat"}, "R-UNITS": {"chord-length-as-angle", "Polyline", "findEndVertex", "Tessellator", "Projection"}})
-	only("C12", map[string][]string{"R-CONST": {"Cell)", "PaddedCell", "interiorDist", "maxXYZtoUVError", "cellPadding", "stuv", "poleMinLat"}, "R-MIRROR": {"projection"}, "R-UNITS": {"Cell)"}, "R-PADDING": {"Cell).RectBound"}, "R-GUARD": {"Cell.MaxDistanceToEdge"}, "R-UPDATER": {"(s2.Cell)."}})
+	only("C12", map[string][]string{"R-CONST": {"Cell)", "PaddedCell", "interiorDist", "maxXYZtoUVError", "cellPadding", "stuv", "poleMinLat"}, "R-MIRROR": {"projection", "ShrinkToFit"}, "R-UNITS": {"Cell)"}, "R-PADDING": {"Cell).RectBound"}, "R-GUARD": {"Cell.MaxDistanceToEdge", "Cell.DistanceToCell", "Cell.MaxDistanceToCell"}, "R-UPDATER": {"(s2.Cell)."}, "R-TABLE": {"Cell.RectBound"}})
 	only("C11", map[string][]string{"R-RANGE": {"CellID)", "CellUnion", "cellunion", "CellIndex", "cellIndex", "s2intersect", "wrap-free"}})
 	predicateConsts := []string{"maxDeterminantError", "detErrorMultiplier", "triage", "stableSign", "cosDistance", "sin2Distance", "s2.dblEpsilon", "s2.dblError", "r1.dblEpsilon", "s1.dblEpsilon"}
 	clipConsts := []string{"edgeClip", "faceClip", "intersectsRect", "cellPadding", "ShapeIndex)", "boundaryApproxIntersects", "ShrinkToFit"}
-	only("C01", map[string][]string{"R-CONST": {"Cell).ContainsPoint", "maxXYZtoUVError"}, "R-RANGE": {"CellID)", "CellUnion", "cellunion"}})
+	only("C01", map[string][]string{"R-MIRROR": {"AdvanceWrap", "CellID.", "cellIDFromFaceIJWrap", "int-shift", "projection", "stToUV", "wrap:"}, "R-CONST": {"Cell).ContainsPoint", "maxXYZtoUVError"}, "R-RANGE": {"CellID)", "CellUnion", "cellunion"}})
 	only("C02", map[string][]string{"R-CONST": predicateConsts, "R-CONSTREL": {"r3.MaxPrec", "stableSign", "maxDeterminantError"}})
 	only("C03", map[string][]string{"R-CONST": {"EdgeCrosser", "intersection", "projection"}, "R-CONSTREL": {"stableSign", "maxDeterminantError", "r3.MaxPrec"}, "R-STAGES": {"RobustSign", "expensiveSign", "exactSign", "bound:", "symbolicallyPerturbedSign", "stage-callers"}, "R-GUARD": {"VertexCrossing"}})
-	only("C05", map[string][]string{"R-CONST": clipConsts, "R-PADDING": {"boundaryApproxIntersects"}, "R-CYCLE": {"coverer", "CellUnionBound"}, "R-PARITY": {"iteratorContainsPoint", "ReferencePoint"}, "R-RANGE": {"ShapeIndexIterator"}, "R-PARTITION": {"Polygon.Invert"}, "R-ACCUM": {"vertex-only-bound"}})
+	only("C05", map[string][]string{"R-MIRROR": {"intersectsLatEdge"}, "R-CONST": clipConsts, "R-PADDING": {"boundaryApproxIntersects"}, "R-CYCLE": {"coverer", "CellUnionBound"}, "R-PARITY": {"iteratorContainsPoint", "ReferencePoint"}, "R-RANGE": {"ShapeIndexIterator"}, "R-PARTITION": {"Polygon.Invert"}, "R-ACCUM": {"vertex-only-bound"}})
 	only("C06", map[string][]string{"R-CONST": clipConsts})
-	only("C07", map[string][]string{"R-ROLES": {"hasCrossing", "(*s2.Loop).", "initOneLoop"}, "R-PARITY": {"loopCrosser"}, "R-INIT": {"Invert"}, "R-GUARD": {"findVertex"}})
+	only("C07", map[string][]string{"R-ROLES": {"hasCrossing", "(*s2.Loop).", "initOneLoop"}, "R-PARITY": {"loopCrosser"}, "R-INIT": {"Invert"}, "R-GUARD": {"findVertex", "getCells"}, "R-NAMEPAIR": {"wedge:", "Loop", "Relation"}})
 	only("C08", map[string][]string{"R-CONSTREL": {"findEdgesInternal", "setMaxError", "IsConservative", "initCovering"}, "R-CYCLE": {"EdgeQuery", "CellUnionBound"}})
-	only("C09", map[string][]string{"R-CONST": {"siTitoPiQi"}, "R-SELFCMP": {"scan", "xyzToFaceSiTi", "stuv", "pointcompression", "s2."}, "R-GUARD": {"xyzToFaceSiTi"}, "R-DECSHAPE": {"readfull"}})
-	only("C10", map[string][]string{"R-CONST": {"RectBounder", "ExpandForSubregions", "Cell).RectBound", "Cap).AddCap", "poleMinLat"}, "R-PADDING": {"Cap).RectBound", "Cell).RectBound"}, "R-SAMEFACE": {"exact:"}, "R-UNITS": {"longitude-wrap"}, "R-ROLES": {"initOneLoop"}, "R-PARTITION": {"Polygon.Invert"}, "R-CONSTREL": {"ExpandForSubregions", "RectBounder"}})
+	only("C09", map[string][]string{"R-CONST": {"siTitoPiQi"}, "R-SELFCMP": {"scan", "xyzToFaceSiTi", "stuv", "pointcompression", "s2."}, "R-GUARD": {"xyzToFaceSiTi"}, "R-DECSHAPE": {"readfull", "asByteReader"}})
+	only("C10", map[string][]string{"R-CONST": {"RectBounder", "ExpandForSubregions", "Cell).RectBound", "Cap).AddCap", "poleMinLat"}, "R-PADDING": {"Cap).RectBound", "Cell).RectBound"}, "R-SAMEFACE": {"exact:"}, "R-UNITS": {"longitude-wrap", "latitude-by-asin"}, "R-ROLES": {"initOneLoop"}, "R-PARTITION": {"Polygon.Invert"}, "R-TABLE": {"Cell.RectBound"}, "R-CONSTREL": {"ExpandForSubregions", "RectBounder"}})
 	only("C18", map[string][]string{"R-CONST": {"turningAngleMaxError", "PointArea"}, "R-ROLES": {"CanonicalFirstVertex", "initOneLoop"}, "R-STAGES": {"stage-callers"}, "R-UNITS": {"raw-longitude-span"}})
 	only("C19", map[string][]string{"R-ROLES": {"ChordAngle"}})
 	// error budgets of kernels whose own properties (C16, C17, C20) are not claimed are reported where the claimed
